@@ -35,9 +35,6 @@ func TestC17(t *testing.T) {
 			}
 			f.settle()
 			for _, path := range writePaths {
-				if strings.HasPrefix(path, "splice") {
-					continue // needs its chunks resident; covered by the disk-level engines
-				}
 				rep.Eval()
 				before := disk.VfSnapshot(f.cache)
 				d := vlib.Bytes(fmt.Sprintf("c17/%s/%d/%s/big", mode, hard, path), 2*blk-200, false)
@@ -45,7 +42,20 @@ func TestC17(t *testing.T) {
 				if pathIsZstd(path) {
 					wire = vlib.ZstdEncode(d)
 				}
-				res := f.upload(upReq{path: path, hash: vlib.Sha(d), size: int64(len(d)), wire: wire, abortAfter: -1})
+				u := upReq{path: path, hash: vlib.Sha(d), size: int64(len(d)), wire: wire, abortAfter: -1}
+				if strings.HasPrefix(path, "splice") {
+					// the chunks are two resident blobs: the spliced result needs two more blocks
+					d = append(append([]byte(nil), resident[0].data...), resident[1].data...)
+					u = upReq{path: path, hash: vlib.Sha(d), size: int64(len(d)), chunks: [][]byte{resident[0].data, resident[1].data}, noChunkUp: true, abortAfter: -1}
+					if hard == 0 {
+						// without the option earlier cells have evicted the residents: fresh chunks, uploaded first
+						c1 := vlib.Bytes(fmt.Sprintf("c17/%s/%s/chunk1", mode, path), 3000, false)
+						c2 := vlib.Bytes(fmt.Sprintf("c17/%s/%s/chunk2", mode, path), 3000, false)
+						d = append(append([]byte(nil), c1...), c2...)
+						u = upReq{path: path, hash: vlib.Sha(d), size: int64(len(d)), chunks: [][]byte{c1, c2}, abortAfter: -1}
+					}
+				}
+				res := f.upload(u)
 				f.settle()
 				after := disk.VfSnapshot(f.cache)
 				id := fmt.Sprintf("mode=%s hard_limit=%d path=%s: two-block upload into a full four-block cache -> %s", mode, hard, path, res.status)
